@@ -49,6 +49,10 @@ def rt_case(draw):
         from mofun.atomic_masses import ATOMIC_MASSES
         spec["type_masses"][1] = round(ATOMIC_MASSES[spec["type_elements"][0]] + 0.001, 6)
     spec["groups"] = [0] * len(spec["pos"])
+    if draw(hperm.integers(0, 4)) == 0:
+        # charges of other magnitudes: very small (printed with an exponent by repr), large, many digits
+        scale = draw(st.sampled_from([2.5e-7, 1.234567e-5, 1e-9, 12.5, 0.333333333333]))
+        spec["charges"] = [(-1 if i % 2 else 1) * (i + 1) * scale for i in range(len(spec["pos"]))]
     # torsion columns: one label set shared by dihedrals and impropers is what the format can carry
     spec["extra_improper_labels"], spec["extra_improper_fields"] = [], []
     if draw(hperm.integers(0, 3)) == 0 and spec["pos"]:
